@@ -275,6 +275,120 @@ def hash_equality(vt):
     return False
 
 
+def piece_nodes_cover_bytes(ctx):
+    """C14.4: every node the v1 piece map attaches to a piece covers at least one byte of its file (or reads to its end).
+
+    The v1 verifier hashes the concatenation of the nodes' byte ranges and, on a match, copies the candidate of *every*
+    node.  A node with an empty range [s, s) of a non-empty file adds nothing to the hash: the piece verifies from the other
+    files alone and whichever same-named, same-sized candidate comes first is copied without a single byte of it having
+    been compared."""
+    from tfsa.reach import ReachDefs
+    fn = ctx.prog.functions.get("torrentfile.rebuild:Metadata._map_pieces")
+    if fn is None:
+        ctx.undecided("C14.4", None, "anchor vanished: Metadata._map_pieces")
+        return
+    g = C.cfg_of(fn)
+    rd = ReachDefs(fn, g)
+    sites = [n for n in own_nodes(fn.node) if isinstance(n, ast.Call) and any(k[0] == "class" and k[1].name == "PathNode" for k in ctx.res.kinds(n.func, fn))]
+    n_sites = 0
+    for call in sites:
+        kw = {k.arg: k.value for k in call.keywords if k.arg}
+        st, sp = kw.get("start"), kw.get("stop")
+        if st is None or sp is None:
+            ctx.undecided("C14.4", fn, "piece node constructed without explicit start/stop", call)
+            continue
+        n_sites += 1
+        cn = C.stmt_node(ctx, fn, call)
+        if isinstance(sp, ast.UnaryOp) and isinstance(sp.op, ast.USub) and isinstance(sp.operand, ast.Constant) and sp.operand.value == 1:
+            ctx.holds("C14.4", fn, "the piece node reads its file to the end (stop = -1)", call)
+            continue
+        if not isinstance(sp, ast.Name):
+            ctx.undecided("C14.4", fn, "stop of the piece node is not a plain local (%s)" % norm(sp), call)
+            continue
+        verdicts = []
+        for d in rd.reaching(sp.id, cn):
+            v = d.value if d.kind == "assign" else None
+            if v is None:
+                verdicts.append((None, "stop defined by %s" % d.kind, d))
+                continue
+            if isinstance(v, ast.UnaryOp) and isinstance(v.op, ast.USub) and isinstance(v.operand, ast.Constant) and v.operand.value == 1:
+                verdicts.append((True, "reads to the end of the file", d))
+                continue
+            # stop = <amount>   or   stop = start + <amount>   with <amount> a local that must be positive here
+            amount = None
+            if isinstance(v, ast.Name):
+                sdefs = rd.reaching(norm(st), d.node) if isinstance(st, ast.Name) else []
+                zero_start = isinstance(st, ast.Constant) and st.value == 0 or (sdefs and all(x.kind == "assign" and isinstance(x.value, ast.Constant) and x.value.value == 0 for x in sdefs))
+                if zero_start:
+                    amount = v.id
+            elif isinstance(v, ast.BinOp) and isinstance(v.op, ast.Add) and isinstance(st, ast.Name):
+                names = [x.id for x in (v.left, v.right) if isinstance(x, ast.Name)]
+                if len(names) == 2 and st.id in names:
+                    amount = [x for x in names if x != st.id][0]
+            if amount is None:
+                verdicts.append((None, "stop = %s is not of the form start + amount" % norm(v), d))
+                continue
+            verdicts.append(_positive_at(ctx, fn, g, rd, amount, d) + (d,))
+        bad = [v for v in verdicts if v[0] is False]
+        unk = [v for v in verdicts if v[0] is None]
+        if bad:
+            ctx.violated("C14.4", fn, "a piece node can cover no bytes of its file (%s): the piece then verifies without that file being read, and its first same-sized candidate is copied unverified" % bad[0][1], call)
+        elif unk or not verdicts:
+            ctx.undecided("C14.4", fn, "cannot show that the piece node covers at least one byte (%s)" % (unk[0][1] if unk else "no definition of stop reaches"), call)
+        else:
+            ctx.holds("C14.4", fn, "the piece node covers at least one byte of its file or reads to its end (%s)" % "; ".join(sorted({v[1] for v in verdicts})), call)
+    ctx.floor("piece-node construction sites in the v1 piece map", 2, n_sites)
+
+
+def _implied(test, lab, atom):
+    """Does taking edge `lab` of the test imply that atom(...) is True for one of its conjuncts?"""
+    if lab == "true":
+        if isinstance(test, ast.BoolOp) and isinstance(test.op, ast.And):
+            return any(_implied(v, "true", atom) for v in test.values)
+        if isinstance(test, ast.UnaryOp) and isinstance(test.op, ast.Not):
+            return _implied(test.operand, "false", atom)
+        return atom(test) is True
+    if lab == "false":
+        if isinstance(test, ast.BoolOp) and isinstance(test.op, ast.Or):
+            return any(_implied(v, "false", atom) for v in test.values)
+        if isinstance(test, ast.UnaryOp) and isinstance(test.op, ast.Not):
+            return _implied(test.operand, "true", atom)
+        return atom(test) is False
+    return False
+
+
+def _positive_at(ctx, fn, g, rd, name, d):
+    """(True/False/None, why): is local `name` > 0 where definition d executes?"""
+    here = rd.reaching(name, d.node)
+    # (a) a dominating test `name > 0` (true edge) with the same definitions reaching
+    for b, lab in g.control_deps(d.node):
+        t = C.test_expr(b)
+        if t is None:
+            continue
+
+        def atom(x):
+            if isinstance(x, ast.Compare) and len(x.ops) == 1 and isinstance(x.left, ast.Name) and x.left.id == name and isinstance(x.comparators[0], ast.Constant) and x.comparators[0].value == 0:
+                if isinstance(x.ops[0], ast.Gt):
+                    return True
+                if isinstance(x.ops[0], ast.LtE):
+                    return False
+            if isinstance(x, ast.Name) and x.id == name:
+                return True
+            return None
+        if _implied(t, lab, atom) and set(rd.reaching(name, b)) == set(here):
+            return True, "%s > 0 is tested on the way" % name
+    # (b) every reaching definition is the (positive) piece length
+    if here and all(x.kind == "assign" and isinstance(x.value, ast.Attribute) and x.value.attr == "piece_length" for x in here):
+        return True, "%s is the piece length" % name
+    # (c) some reaching definition is certainly zero
+    for x in here:
+        if x.kind == "assign" and isinstance(x.value, ast.Constant) and x.value.value == 0:
+            return False, "`%s` can still be 0 (set by `%s`) when stop = %s is taken" % (name, norm(x.stmt), name)
+        if x.kind == "aug" and isinstance(x.stmt, ast.AugAssign) and isinstance(x.stmt.op, ast.Sub) and norm(x.stmt.value) == name:
+            return False, "`%s` can be 0 (after `%s`) when stop = %s is taken" % (name, norm(x.stmt), name)
+    return None, "sign of %s not established" % name
+
+
 def local_chain_uses(ctx, fn, expr, cand, loop):
     """Inside the candidate loop, the value of expr is computed (through local definitions) by a call that receives the
     candidate variable itself."""
@@ -292,6 +406,10 @@ def local_chain_uses(ctx, fn, expr, cand, loop):
                 for what, payload in ctx.res.bindings(fn).get(n.id, []):
                     if what == "value" and payload in inside:
                         work.append(payload)
+                # x += f(candidate) also makes x depend on the candidate
+                for a in inside:
+                    if isinstance(a, ast.AugAssign) and isinstance(a.target, ast.Name) and a.target.id == n.id:
+                        work.append(a.value)
     return False
 
 
@@ -308,11 +426,27 @@ def run(ctx):
         return
     no_clobber(ctx, copyfns)
     verified_source(ctx, flow, copyfns, full)
+    piece_nodes_cover_bytes(ctx)
+    from .destpaths import destinations
+    sites = []
+    for cf, (src_p, dst_p, _) in copyfns.items():
+        for caller, call, bound in ctx.res.callsites_of(cf):
+            if caller is not None and caller in full and bound.get(dst_p) is not None and caller.module.name == "torrentfile.rebuild":
+                sites.append((caller, call, bound.get(dst_p)))
+    destinations(ctx, "C14.5", sites)
     from .dynscan import dynamic_features
     dynamic_features(ctx, "C14.0")
 
 
 MUTANTS = [
+    {"name": "map-pieces-guard-dropped", "file": "torrentfile/rebuild.py", "expect": "violated", "rule": "C14.4", "canary": True, "quick": True,
+     "what": "a full piece still takes the next file (zero-length node)", "edits": [("            while target > 0 and file_index < len(self.files):", "            while file_index < len(self.files):")]},
+    {"name": "dest-without-name-directory", "file": "torrentfile/rebuild.py", "expect": "violated", "rule": "C14.5", "canary": True,
+     "what": "v1 multi-file entries are written below <dest> without the torrent's name directory", "edits": [("                full = os.path.join(self.name, *path)", "                full = os.path.join(*path)")]},
+    {"name": "dest-from-parent-and-filename-benign", "file": "torrentfile/rebuild.py", "expect": "clean",
+     "what": "destination spelled join(parent, filename) instead of the full field", "edits": [("                dest_path = _contained(self.dest, pathnode.full)", "                dest_path = _contained(self.dest, os.path.join(pathnode.path, pathnode.filename))")]},
+    {"name": "single-file-test-without-name", "file": "torrentfile/rebuild.py", "expect": "violated", "rule": "C14.5", "canary": True,
+     "what": "single-file layout chosen for any tree with one file entry", "edits": [("            if list(tree) == [self.name] and \"\" in tree[self.name]:", "            if len(tree) == 1 and \"\" in list(tree.values())[0]:")]},
     {"name": "G8-regress-copy-metafile-dir", "file": "torrentfile/rebuild.py", "expect": "violated", "rule": "C14.3", "canary": True, "quick": True,
      "what": "pinned-tree defect G8: copypath(entry['path'], ...)", "edits": [("                        copypath(path, dest_path)", "                        copypath(entry[\"path\"], dest_path)")]},
     {"name": "v2-copy-without-hash", "file": "torrentfile/rebuild.py", "expect": "violated", "rule": "C14.3", "canary": True, "quick": True,
@@ -346,7 +480,7 @@ CLAIM = {
     "text": "Decided (modulo the piece-to-file mapping, which cannot make a copy unverified): the only mutating primitives reachable from rebuild are directory creation and copy, their "
             "targets derive from the destination argument and never from the search directories or metafile paths; the copy function's no-clobber table is evaluated for all 10 satisfiable "
             "rows; every call of it copies a search-index candidate under a size-equality guard and a hash equality computed over that same candidate, to the containment-checked path "
-            "the metafile assigns. Byte-identity of the copy is shutil.copy's.",
+            "the metafile assigns. Byte-identity of the copy is shutil.copy's. C14.4: every node of the v1 piece map covers at least one byte of its file or reads to its end. C14.5: destination paths are evaluated symbolically as component sequences from the reader's record literals to each copy site and compared with the path the metafile assigns; the single-file layout must be chosen by comparing the tree's key with the torrent name.",
     "note": "Trusted: effect table, shutil.copy semantics, hashlib. 'Verified' means at least one piece (v1) or the merkle root (v2) of the candidate verified, as the property states. "
             "Explicit data flow; the boolean summary of _find_matches is followed through origin terms.",
     "technique": "effect summaries (who-may-write), CFG trace of the no-clobber decision table, control dependence + origin terms for the verified-source clause",
